@@ -479,8 +479,49 @@ def load_corpus(prop_id: str) -> list[dict]:
     return out
 
 
+class _LogSink:
+    """DEBUG logging as an environment axis: a third of all cases run with the library's loggers at DEBUG and a handler
+    that formats every record (so lazily formatted arguments are evaluated).  The pinned library logs almost nothing, so
+    this is inert on the unchanged tree; a change whose logging call has a side effect, raises, or consumes an iterator
+    only when DEBUG is enabled (seeded C02 p2) becomes visible to correspondence and oracle."""
+    import logging as _logging
+
+    class _H(_logging.Handler):
+        def emit(self, record):
+            record.getMessage()          # exceptions propagate into the code under test (logging.raiseExceptions aside)
+
+        def handleError(self, record):   # a failing log call must not be swallowed silently: re-raise into the caller
+            raise
+
+    def __init__(self):
+        lg = self._logging.getLogger("operon_ai")
+        self.lg, self.h = lg, self._H()
+        self.prev = lg.level
+
+    def set(self, on: bool):
+        if on:
+            if self.h not in self.lg.handlers:
+                self.lg.addHandler(self.h)
+            self.lg.setLevel(self._logging.DEBUG)
+            self.lg.propagate = False
+        else:
+            if self.h in self.lg.handlers:
+                self.lg.removeHandler(self.h)
+            self.lg.setLevel(self.prev)
+            self.lg.propagate = True
+
+
+def case_debug_logging(case: dict) -> bool:
+    """Deterministic per case (replays identically); a case may pin it with the key `dbg`."""
+    if "dbg" in case:
+        return bool(case["dbg"])
+    import zlib
+    return zlib.crc32("\n".join(case.get("lines", [])).encode("utf-8", "surrogatepass")) % 3 == 0
+
+
 class Runner:
     def __init__(self, prop: Prop, tier: str, seed: int):
+        self.logsink = _LogSink()
         self.p = prop
         self.tier = tier
         self.seed = seed
@@ -509,7 +550,13 @@ class Runner:
         model_in: list[str] = []
         for c in cases:
             try:
-                obs, extra = self.p.run_impl(c)
+                c["dbg"] = case_debug_logging(c)
+                os.environ["OPERON_VERIF_DEBUG_LOGGING"] = "1" if c["dbg"] else "0"   # for harnesses that run a child
+                self.logsink.set(c["dbg"])
+                try:
+                    obs, extra = self.p.run_impl(c)
+                finally:
+                    self.logsink.set(False)
                 if len(obs) != len(c["lines"]):
                     raise Infra(f"run_impl returned {len(obs)} observations for {len(c['lines'])} lines")
                 viol = self.p.oracle(c, obs, extra)
@@ -605,6 +652,7 @@ class Runner:
             "property": self.p.id, "kind": kind, "seed": self.seed, "tier": self.tier,
             "failing_input_found": found,
             "history": r["case"]["lines"] if r else None,
+            "debug_logging": r["case"].get("dbg") if r else None,
             "note": r["case"].get("note") if r else None,
             "oracle": [v.to_json() for v in r["viol"]] if r else [],
             "impl_observations": r["impl"] if r else None,
@@ -824,6 +872,8 @@ class Runner:
                 return 1
             return 0
         case = {"lines": body["history"], "note": "replay"}
+        if body.get("debug_logging") is not None:
+            case["dbg"] = bool(body["debug_logging"])
         r = self.eval_cases([case])[0]
         for i, (l, a, b) in enumerate(zip(case["lines"], r["impl"], r["model"])):
             print(f"  {i:3d} {l}\n      impl : {a}\n      model: {b}")
